@@ -44,6 +44,15 @@ impl TomlConverter {
         for val in items.iter() {
             v.push(self.convert_value(val)?);
         }
+        // The serializer writes tables in an array as [[name]] sections and
+        // has no way to do that next to plain values. What it writes for
+        // such a list is not valid toml.
+        let tables = v.iter().filter(|i| i.is_table()).count();
+        if tables != 0 && tables != v.len() {
+            let err =
+                SimpleError::new("Lists that mix tuples with other values are not allowed in Toml Conversions!");
+            return Err(Box::new(err));
+        }
         Ok(toml::Value::Array(v))
     }
 
